@@ -429,6 +429,24 @@ def g_generic(ctx, rng, i):
             pole = np.linalg.solve(A.astype(float), np.asarray(pl.array, dtype=float))
             ctx.judge("polar", X.proj_residual(pole, pt.array) <= 1e-8, [A, pt.array], what="pole(polar(p)) != p", op="pole∘polar", nontrivial=True)
     _try(lambda: Q.dual)
+    # the quadric moved after its dual / tangency was asked for: the same questions on the image
+    tm = gen.invertible_int_matrix(rng, n, 2)
+    t = g.Transformation(tm)
+    for Qm in (_try(lambda: t * Q), _try(lambda: Q + g.Point(*gen.coords(rng, (dim,), 4, "int").tolist()))):
+        if Qm is None or not hasattr(Qm, "is_tangent"):
+            continue
+        _try(lambda: Qm.dual)
+        for _ in range(2):
+            _try(Qm.is_tangent, (g.Line if dim == 2 else g.Plane)(gen.nonzero_vec(rng, n, 4)))
+        x = g.Point(gen.nonzero_vec(rng, n, 4))
+        _try(Qm.tangent, x)
+        if dim == 2:
+            _try(Qm.polar, x)
+        p, q = gen.nonzero_vec(rng, n, 4), gen.nonzero_vec(rng, n, 4)
+        if X.rank([X.vec(p), X.vec(q)]) == 2:
+            lm = _try(mk, p, q)
+            if lm is not None:
+                _try(Qm.intersect, lm)
     # collections
     shape = gen.pick(rng, [(3,), (2, 2)])
     k = int(np.prod(shape))
